@@ -17,6 +17,11 @@ being the method's three parameters under whatever names the source gives them:
   __post_init__(self)
     self.__initialized = True                                                                 -> PInitTrue
     self.k = self.k                                                                           -> PReassign "k"
+    for n in ("k1", "k2", ...): setattr(self, n, getattr(self, n))                            -> PReassign "k1"; ...
+Calls of module-level helper functions and of plain methods of BaseParam with plain-name arguments are inlined first
+(a call statement by the body of a helper that returns nothing, an `if` test by the expression of a one-line
+`return <expr>` helper; parameters renamed to the argument names), `for v in self.__dict__.values()` is accepted like
+the loop over `.items()`.
 
 Trusted: this parser (what the Python shapes above mean is fixed by the interpreter of Model/DrawParamsSrc.v), that
 no subclass of BaseParam overrides the two methods (checked by c19_gen.py), and dataclasses.fields(self) = the declared
@@ -97,22 +102,115 @@ def parse_items(body, v, name, value):
 
 
 def parse_for(s, self_, name, value):
-    """for k, v in self.__dict__.items(): ..."""
-    if not (isinstance(s, ast.For) and not s.orelse and isinstance(s.target, ast.Tuple) and len(s.target.elts) == 2
-            and all(isinstance(e, ast.Name) for e in s.target.elts)):
-        bad(s, "not a loop `for k, v in self.__dict__.items()`")
-    it = s.iter
-    if not (isinstance(it, ast.Call) and not it.args and not it.keywords and isinstance(it.func, ast.Attribute)
-            and it.func.attr == "items" and isinstance(it.func.value, ast.Attribute) and it.func.value.attr == "__dict__"
-            and is_name(it.func.value.value, self_)):
-        bad(s, "the loop does not run over self.__dict__.items()")
-    k, v = (e.id for e in s.target.elts)
+    """for k, v in self.__dict__.items(): ...   |   for v in self.__dict__.values(): ..."""
+    it = s.iter if isinstance(s, ast.For) else None
+    over_dict = (isinstance(it, ast.Call) and not it.args and not it.keywords and isinstance(it.func, ast.Attribute)
+                 and isinstance(it.func.value, ast.Attribute) and it.func.value.attr == "__dict__"
+                 and is_name(it.func.value.value, self_))
+    if not (isinstance(s, ast.For) and not s.orelse and over_dict):
+        bad(s, "not a loop over self.__dict__.items() / .values()")
+    if it.func.attr == "items" and isinstance(s.target, ast.Tuple) and len(s.target.elts) == 2 \
+            and all(isinstance(e, ast.Name) for e in s.target.elts):
+        k, v = (e.id for e in s.target.elts)
+    elif it.func.attr == "values" and isinstance(s.target, ast.Name):
+        k, v = "", s.target.id
+    else:
+        bad(s, "loop target does not fit self.__dict__.items() / .values()")
     if k in (name, value, self_) or v in (name, value, self_):
         bad(s, "loop variables shadow the parameters")
     return parse_items(s.body, v, name, value)
 
 
-def parse_setattr(fn):
+class _Subst(ast.NodeTransformer):
+    def __init__(self, m):
+        self.m = m
+
+    def visit_Name(self, n):
+        return ast.copy_location(ast.Name(id=self.m.get(n.id, n.id), ctx=n.ctx), n)
+
+
+def _callee(call, funcs, self_):
+    """(FunctionDef, argument names) of a call to a module-level helper or a method of BaseParam with plain-name
+    arguments, else None"""
+    if not isinstance(call, ast.Call) or call.keywords or not all(isinstance(a, ast.Name) for a in call.args):
+        return None
+    f = call.func
+    if isinstance(f, ast.Name) and f.id in funcs["module"]:
+        return funcs["module"][f.id], [a.id for a in call.args]
+    if isinstance(f, ast.Attribute) and is_name(f.value, self_) and f.attr in funcs["methods"] \
+            and not f.attr.startswith("__"):
+        return funcs["methods"][f.attr], [self_] + [a.id for a in call.args]
+    return None
+
+
+def _body_of(fd):
+    return [b for b in fd.body if not (isinstance(b, ast.Expr) and isinstance(b.value, ast.Constant)
+                                       and isinstance(b.value.value, str))]
+
+
+def inline(stmts, funcs, self_, depth=0):
+    """helper calls replaced by the helper's body (parameters renamed to the argument names): a call statement by the
+    statements of a helper that returns nothing, a call used as an `if` test by the expression of a helper whose
+    body is one `return <expr>`"""
+    if depth > 4:
+        raise SourceShapeError("helper calls nested too deeply")
+    out = []
+    for st in stmts:
+        if isinstance(st, ast.Expr):
+            c = _callee(st.value, funcs, self_)
+            if c is not None:
+                fd, args = c
+                a = fd.args
+                if a.vararg or a.kwarg or a.kwonlyargs or a.defaults or len(a.args) != len(args):
+                    bad(st, "helper signature does not fit the call")
+                body = _body_of(fd)
+                if any(isinstance(n, ast.Return) and n.value is not None for b in body for n in ast.walk(b)):
+                    bad(st, "helper called as a statement returns a value")
+                m = dict(zip([x.arg for x in a.args], args))
+                out += inline([_Subst(m).visit(ast.parse(ast.unparse(b)).body[0]) for b in body
+                               if not isinstance(b, ast.Return)], funcs, self_, depth + 1)
+                continue
+        if isinstance(st, ast.If):
+            c = _callee(st.test, funcs, self_)
+            if c is not None:
+                fd, args = c
+                body = _body_of(fd)
+                a = fd.args
+                if len(body) != 1 or not isinstance(body[0], ast.Return) or body[0].value is None \
+                        or a.vararg or a.kwarg or a.kwonlyargs or a.defaults or len(a.args) != len(args):
+                    bad(st, "helper used as a condition is not a single `return <expr>`")
+                m = dict(zip([x.arg for x in a.args], args))
+                st = ast.If(test=_Subst(m).visit(ast.parse(ast.unparse(body[0].value), mode="eval").body),
+                            body=st.body, orelse=st.orelse)
+            st = ast.If(test=st.test, body=inline(st.body, funcs, self_, depth), orelse=inline(st.orelse, funcs, self_, depth))
+        elif isinstance(st, ast.For):
+            st = ast.For(target=st.target, iter=st.iter, body=inline(st.body, funcs, self_, depth), orelse=st.orelse,
+                         type_comment=None)
+        out.append(st)
+    return out
+
+
+def expand_post_init_loop(stmts, self_):
+    """for n in ("a", "b", ...): setattr(self, n, getattr(self, n))   ->   self.a = self.a; self.b = self.b; ..."""
+    out = []
+    for st in stmts:
+        if isinstance(st, ast.For) and not st.orelse and isinstance(st.target, ast.Name) \
+                and isinstance(st.iter, (ast.Tuple, ast.List)) \
+                and all(isinstance(e, ast.Constant) and isinstance(e.value, str) for e in st.iter.elts) \
+                and len(st.body) == 1 and isinstance(st.body[0], ast.Expr):
+            c, n = st.body[0].value, st.target.id
+            if (isinstance(c, ast.Call) and is_name(c.func, "setattr") and len(c.args) == 3 and not c.keywords
+                    and is_name(c.args[0], self_) and is_name(c.args[1], n) and isinstance(c.args[2], ast.Call)
+                    and is_name(c.args[2].func, "getattr") and len(c.args[2].args) == 2 and not c.args[2].keywords
+                    and is_name(c.args[2].args[0], self_) and is_name(c.args[2].args[1], n)):
+                for e in st.iter.elts:
+                    out.append(ast.parse(f"{self_}.{e.value} = {self_}.{e.value}").body[0])
+                continue
+        out.append(st)
+    return out
+
+
+def parse_setattr(fn, funcs=None):
     a = fn.args
     if a.vararg or a.kwarg or a.kwonlyargs or a.posonlyargs or a.defaults or len(a.args) != 3:
         bad(fn, "__setattr__ does not take exactly (self, name, value)")
@@ -120,6 +218,8 @@ def parse_setattr(fn):
     out = []
     body = [s for s in fn.body if not (isinstance(s, ast.Expr) and isinstance(s.value, ast.Constant)
                                        and isinstance(s.value.value, str))]
+    if funcs is not None:
+        body = inline(body, funcs, self_)
     for s in body:
         if isinstance(s, ast.Expr) and is_setattr_call(s.value, is_super, name, value):
             out.append("SStore")
@@ -135,13 +235,16 @@ def parse_setattr(fn):
     return out
 
 
-def parse_post_init(fn):
+def parse_post_init(fn, funcs=None):
     a = fn.args
     if a.vararg or a.kwarg or a.kwonlyargs or a.posonlyargs or a.defaults or len(a.args) != 1:
         bad(fn, "__post_init__ takes more than self")
     self_ = a.args[0].arg
     out = []
-    for s in fn.body:
+    body = expand_post_init_loop(fn.body, self_)
+    if funcs is not None:
+        body = expand_post_init_loop(inline(body, funcs, self_), self_)
+    for s in body:
         if isinstance(s, ast.Expr) and isinstance(s.value, ast.Constant) and isinstance(s.value.value, str):
             continue
         if not (isinstance(s, ast.Assign) and len(s.targets) == 1 and isinstance(s.targets[0], ast.Attribute)
@@ -177,7 +280,8 @@ def text():
             for f in n.body:
                 if isinstance(f, ast.FunctionDef) and f.name in ("__setattr__", "__post_init__", "__setitem__"):
                     bad(f, f"class {n.name} overrides {f.name}")
-    sa, pi = parse_setattr(meth["__setattr__"]), parse_post_init(meth["__post_init__"])
+    funcs = {"module": {n.name: n for n in tree.body if isinstance(n, ast.FunctionDef)}, "methods": meth}
+    sa, pi = parse_setattr(meth["__setattr__"], funcs), parse_post_init(meth["__post_init__"], funcs)
     sha = hashlib.sha1(src.encode()).hexdigest()[:12]
     return ("(* GENERATED on every run by harness/props/c19_src.py from the syntax tree of BaseParam.__setattr__ / "
             f"__post_init__. Do not edit.\n   source: {path} sha1={sha} *)\n"
